@@ -220,6 +220,8 @@ type Case struct {
 	Spec  Spec        `json:"spec"`
 	Shape string      `json:"shape"`
 	Trans string      `json:"transport"`
+	// Bystander: other endpoints sharing the table values are constructed before the call (harness only)
+	Bystander bool `json:"bystander,omitempty"`
 }
 
 func contentOf(err error) (Ty, string, bool) {
@@ -306,6 +308,7 @@ func Run(d *fw.Driver, res *fw.Result, seed int64, n int, corpus []json.RawMessa
 				c.CReg = []RegEntry{{Code: c1, Ty: forceTy}, {Code: 6, Ty: Ty{"EPtr", true}}, {Code: c2, Ty: forceTy}}
 			}
 		}
+		c.Bystander = r.Intn(4) == 0
 		c.Shape = fw.Pick(r, []string{"err", "valerr"})
 		c.Trans = fw.Pick(r, []string{"custom", "custom", "http", "ws"})
 		sp := Spec{Nil: r.Intn(8) == 0, Msg: fw.Pick(r, messages), Content: fw.Pick(r, []string{"k", "", "x y", "ünï", "\"q\""})}
@@ -416,14 +419,41 @@ func one(d *fw.Driver, res *fw.Result, c *Case) error {
 
 	// ---- the real thing
 	var sopts []jsonrpc.ServerOption
+	var sTab, cTab *jsonrpc.Errors
 	if es, ok := entriesOf(c.SReg); ok {
-		sopts = append(sopts, jsonrpc.WithServerErrors(mkErrors(es)))
+		t := mkErrors(es)
+		sTab = &t
+		sopts = append(sopts, jsonrpc.WithServerErrors(t))
 	}
 	srv := jsonrpc.NewServer(sopts...)
 	srv.Register("H", H{})
 	var copts []jsonrpc.Option
 	if es, ok := entriesOf(c.CReg); ok {
-		copts = append(copts, jsonrpc.WithErrors(mkErrors(es)))
+		t := mkErrors(es)
+		cTab = &t
+		copts = append(copts, jsonrpc.WithErrors(t))
+	}
+	if c.Bystander {
+		// other endpoints of the same process built from the same table values (an application keeps one
+		// package-level table), each given a further table of its own: what they register must stay theirs
+		var extra []RegEntry
+		for i, n := range names {
+			extra = append(extra, RegEntry{Code: 2 + i, Ty: Ty{n, n == "EPtr" || i%2 == 0}})
+		}
+		if sTab != nil {
+			s2 := jsonrpc.NewServer(jsonrpc.WithServerErrors(*sTab), jsonrpc.WithServerErrors(mkErrors(extra)))
+			s2.Register("H", H{})
+		}
+		if cTab != nil {
+			var cl2 Client
+			cl2closer, err := jsonrpc.NewCustomClient("H", []interface{}{&cl2}, func(ctx context.Context, body []byte) (io.ReadCloser, error) {
+				return io.NopCloser(strings.NewReader("")), nil
+			}, jsonrpc.WithErrors(*cTab), jsonrpc.WithErrors(mkErrors(extra)))
+			if err != nil {
+				return err
+			}
+			defer cl2closer()
+		}
 	}
 	var cl Client
 	var closer jsonrpc.ClientCloser
